@@ -548,7 +548,8 @@ theorem callbacks_of_written_document_raw (P : BS.Tokenizer.Params) (hP : Params
 /-- **parse_of_written_document_raw — … also with `<script>` and `<style>`.** `parse_of_written_document` for
     `WritableRaw` documents: the text of a raw-text element, written verbatim, comes back as ONE string child of the
     element, of the class the builder's string-container rule gives the element (`normalise`: `Script` under `script`,
-    `Stylesheet` under `style` for the HTML builders' `string_containers`, C03), `<`, `&` and tags inside it untouched. -/
+    `Stylesheet` under `style` for the HTML builders' `string_containers`, C03), `<`, `&` and tags inside it untouched
+    (a text of ASCII whitespace only becomes one `\\n` or space, as everywhere outside `<pre>`: that is `normalise`). -/
 theorem parse_of_written_document_raw (bcfg : Cfg) (acfg : ACfg) (hc : CfgOK bcfg) (P : BS.Tokenizer.Params) (hP : ParamsOK P)
     (c : Choices) (ds : List WDoc) (hw : WritableRaw acfg.isVoid c ds) (hr : Representable bcfg acfg ds)
     (hs : WellSpelt acfg c.char ds) :
